@@ -748,6 +748,40 @@ N5_REASONS = {
 }
 
 
+def _keys_are_allowed_lengths(ctx, f, base):
+    """The table's keys are exactly the allowed_lengths of a dtype whose set/get function reaches ``f``: the length choke
+    point (rule CHOKE) lets no other length exist, so the lookup cannot miss."""
+    m = ctx.m
+    d = base
+    if not isinstance(d, ast.Dict):
+        nm = ast.unparse(base).split('.')[-1]
+        d = None
+        for mod in m.mods:
+            gv = m.modglobals[mod].get(nm)
+            if isinstance(gv, ast.Dict):
+                d = gv
+    if not isinstance(d, ast.Dict) or not d.keys or not all(isinstance(k, ast.Constant) and isinstance(k.value, int) for k in d.keys):
+        return False
+    keys = {k.value for k in d.keys}
+    for e in m.registry:
+        al = e.get('allowed_lengths') or ()
+        if not al or Ellipsis in al or set(al) != keys:
+            continue
+        cache = ctx.__dict__.setdefault('_al_cache', {})
+        ck = e['name']
+        if ck not in cache:
+            roots = []
+            for role in ('set_fn', 'get_fn'):
+                g = m.func_by_dotted(e[role]) if e.get(role) else None
+                if g is not None:
+                    for cx in ctx.R.contexts(g):
+                        roots.append(ctx.node(g, cx))
+            cache[ck] = {n[0] for n in ctx.reachable(roots)}
+        if f.key in cache[ck]:
+            return f"keys = allowed_lengths of '{e['name']}' (no other length passes the dtype choke point)"
+    return False
+
+
 def rule_N5(ctx):
     """Every lookup in a dict table by a run-time key is guarded (membership test, try/except KeyError) or justified."""
     m = ctx.m
@@ -791,8 +825,10 @@ def rule_N5(ctx):
                 if isinstance(t, (ast.For, ast.comprehension)) and ast.unparse(t.target) == ast.unparse(x.slice) and \
                         ast.unparse(t.iter) in (ast.unparse(base), ast.unparse(base) + '.keys()'):
                     guarded = True       # the key iterates over the table itself
+            if not guarded:
+                guarded = _keys_are_allowed_lengths(ctx, f, base)
             if guarded:
-                r.ok(f'{f.key}:{key}', {'instance': f.key, 'lookup': key, 'verdict': 'membership test / KeyError handler'})
+                r.ok(f'{f.key}:{key}', {'instance': f.key, 'lookup': key, 'verdict': 'membership test / KeyError handler' if guarded is True else guarded})
             elif _rmatch(ctx, N5_REASONS, ctx.rk(f.key), key, f) is not None:
                 r.ok(f'{f.key}:{key}', reason=True)
             else:
